@@ -112,6 +112,14 @@ def oracle_newmark(case, R):
     R.label("force:" + lab_)
     sol = ts.tsolve(Fh, d0, v0)
     R.check(np.array_equal(np.asarray(Fh, dtype=float), F), "tsolve_modifies_force", lab_)
+    if case.get("reuse"):
+        # the same instance solves the same load case again: identical histories (no state left behind by the
+        # first solve, nonlinear terms included)
+        with np.errstate(all="ignore"):
+            sol2 = ts.tsolve(F, d0, v0)
+        same_ = all(np.array_equal(getattr(sol, q_), getattr(sol2, q_), equal_nan=True) for q_ in "dva")
+        R.check(same_, "newmark_second_solve_differs")
+        R.label("reuse")
     with np.errstate(all="ignore"):
         dr, vr, ar, zs = newmark_doc.newmark(M, B, K, h, F, d0, v0, rf, refnl)
     if not (np.all(np.isfinite(dr)) and np.all(np.isfinite(ar)) and np.abs(dr).max() < 1e100):
@@ -175,7 +183,7 @@ def newmark_cases(draw):
             "rf": draw(st.lists(st.integers(0, 4), max_size=2)) if draw(st.integers(0, 3)) == 0 else [],
             "ic": draw(st.booleans()), "icscale": draw(st.sampled_from([1.0, 0.01])),
             "mform": draw(st.sampled_from(["none", "vec", "mat"])), "bvec": draw(st.booleans()),
-            "kvec": draw(st.booleans()), "nonlin": nl, "fpack": draw(st.sampled_from(util.PACKS))}
+            "kvec": draw(st.booleans()), "nonlin": nl, "fpack": draw(st.sampled_from(util.PACKS)), "reuse": draw(st.integers(0, 2)) == 0}
 
 
 # ---------------------------------------------------------------- CDF recurrence
@@ -234,6 +242,11 @@ def oracle_cdf(case, R):
     R.label("force:" + lab_)
     sol = ts.tsolve(Fh, d0 if case["ic"] else None, v0 if case["ic"] else None)
     R.check(np.array_equal(np.asarray(Fh, dtype=float), F), "tsolve_modifies_force", lab_)
+    if case.get("reuse"):
+        ts.tsolve(F[:, ::-1] * 0.5 + 1.0)                        # another load case in between
+        sol2 = ts.tsolve(F, d0 if case["ic"] else None, v0 if case["ic"] else None)
+        R.check(all(np.array_equal(getattr(sol, q_), getattr(sol2, q_)) for q_ in "dva"), "cdf_second_solve_differs")
+        R.label("reuse")
     R.label(f"order={order}", f"cls={case['cls']}", "cdforces" if ts.cdforces else "plain",
             "rb" if nrb else "norb", "offdiag" if np.any(Cod) else "diagonal")
     R.nontrivial(nt >= 5 and np.any(Cod))
@@ -288,7 +301,8 @@ def cdf_cases(draw):
             "nrb": draw(st.integers(0, 2)), "ratio": draw(st.sampled_from([0.0, 0.0, 0.05, 0.2, 0.5])),
             "ic": draw(st.booleans()), "mform": draw(st.sampled_from(["none", "vec", "mat"])),
             "cls": draw(st.sampled_from(["SolveCDF", "SolveUnc"])), "rb_given": draw(st.booleans()),
-            "bmat": draw(st.booleans()), "perm": draw(st.booleans()), "fpack": draw(st.sampled_from(util.PACKS))}
+            "bmat": draw(st.booleans()), "perm": draw(st.booleans()), "fpack": draw(st.sampled_from(util.PACKS)),
+            "reuse": draw(st.integers(0, 2)) == 0}
 
 
 # ---------------------------------------------------------------- convergence and stability
